@@ -87,8 +87,19 @@ type connPlan struct {
 	// handshake: 0 = right behind the first chunk, else after the wait deadline has long passed
 	// (T+50ms, 2T, 4T): the connection is idle-open in between.
 	RestAt int `json:"rest_at,omitempty"`
-	// tkFakeErrno only: the errno the harness-owned outbound client fails with.
-	Errno string `json:"errno,omitempty"`
+	// tkFakeErrno only: what the harness-owned outbound client fails with: an errno name of
+	// conn's table, an errno outside it (EINVAL, EPERM, EADDRNOTAVAIL, ENOBUFS), or one of the
+	// non-errno errors (errDeadline, errDNS, errEOF); and how the errno is wrapped.
+	Errno   string `json:"errno,omitempty"`
+	ErrWrap string `json:"err_wrap,omitempty"`
+	// Visitor != 0: the connection is not a Shadowsocks client at all but a visitor of an ss2022
+	// server that has unsafeFallbackAddress set (casePlan.Fallback): it connects, writes its stream
+	// (starting with an HTTP request / a TLS ClientHello record header / nothing special) and must
+	// end up relayed to the fallback destination, which is this connection's target.
+	// Dribble > 0: the first segment is not written at once: Dribble bytes, DribbleGapMs pause, rest.
+	Visitor      int `json:"visitor,omitempty"`
+	Dribble      int `json:"dribble,omitempty"`
+	DribbleGapMs int `json:"dribble_gap_ms,omitempty"`
 	// cmAbort only: who resets, and whether it waits until both sides have read everything
 	// (then the statistics must be exact) or resets as soon as the client has seen the first
 	// downlink byte and its own writes are done (bytes may be lost in flight).
@@ -130,6 +141,22 @@ type casePlan struct {
 	// it reports as NativeInitialPayload.
 	FakeNative bool `json:"fake_native,omitempty"`
 
+	// TLS: the front http server speaks HTTP proxy over TLS (enableTLS + certList).
+	// ChainTLS: the chain client (Client == "http") uses TLS (useTLS + rootCAs) and the back
+	// instance's http server enables it; ChainServerName: the client names the server
+	// (serverName) instead of letting it be inferred from the endpoint address (an IP SAN).
+	TLS             bool `json:"tls,omitempty"`
+	ChainTLS        bool `json:"chain_tls,omitempty"`
+	ChainServerName bool `json:"chain_server_name,omitempty"`
+	// Fallback: the front ss2022 server(s) have unsafeFallbackAddress set; AllowSegmented:
+	// allowSegmentedFixedLengthHeader (the server then collects the fixed-length header over
+	// several reads instead of judging the first read).
+	Fallback       bool `json:"fallback,omitempty"`
+	AllowSegmented bool `json:"allow_segmented,omitempty"`
+	// DebugLog / BackDebugLog: the instance runs with a debug-level logger (encoded to io.Discard).
+	DebugLog     bool `json:"debug_log,omitempty"`
+	BackDebugLog bool `json:"back_debug_log,omitempty"`
+
 	Conns []connPlan `json:"conns"`
 }
 
@@ -151,6 +178,93 @@ func (c casePlan) view(i int) casePlan {
 		c.Client = "direct"
 	}
 	return c
+}
+
+// visitor kinds
+const (
+	viNone = iota
+	viHTTP
+	viTLS
+	viRandom
+	nVisitorKinds
+)
+
+var visitorNames = [nVisitorKinds]string{"", "http-request", "tls-client-hello", "random-bytes"}
+
+// saltLen / fallbackHeaderLen: the sizes the ss2022 specification gives the start of a request
+// stream: salt (= key length), [16-byte identity header when user PSKs are in use], 11-byte
+// fixed-length header + 16-byte tag. 16+27 = 43, with identity header 59 (75 with 32-byte keys).
+func (c casePlan) saltLen() int {
+	if c.AES256 {
+		return 32
+	}
+	return 16
+}
+
+func (c casePlan) fallbackHeaderLen() int {
+	n := c.saltLen() + 11 + 16
+	if c.Auth {
+		n += 16
+	}
+	return n
+}
+
+// isVisitor: connection i is a non-Shadowsocks visitor of a fallback-enabled ss2022 server.
+func (c casePlan) isVisitor(i int) bool {
+	return c.Server == "ss2022" && c.Fallback && c.Conns[i].Visitor != viNone
+}
+
+// visitorPrefix is what a visitor's stream starts with.
+func visitorPrefix(kind int) []byte {
+	switch kind {
+	case viHTTP:
+		return []byte("GET /index.html HTTP/1.1\r\nHost: www.example.com\r\nUser-Agent: curl/8.5.0\r\nAccept: */*\r\n\r\n")
+	case viTLS:
+		// TLS record header + handshake header + legacy_version of a 512-byte ClientHello
+		return []byte{0x16, 0x03, 0x01, 0x02, 0x00, 0x01, 0x00, 0x01, 0xfc, 0x03, 0x03}
+	}
+	return nil
+}
+
+// makeVisitor turns a drawn connection into a visitor: it always sends something (a silent
+// visitor is never connected anywhere), its first segment is sized around the salt and around the
+// header length, and it may dribble that segment.
+func makeVisitor(rt *rapid.T, c *casePlan, p *connPlan) {
+	p.Visitor = rapid.IntRange(viHTTP, viRandom).Draw(rt, "visitor-kind")
+	s, h := c.saltLen(), c.fallbackHeaderLen()
+	switch rapid.IntRange(0, 7).Draw(rt, "visitor-first-class") {
+	case 0, 1:
+		p.FirstLen = rapid.SampledFrom([]int{1, s - 1}).Draw(rt, "visitor-first")
+	case 2, 3:
+		p.FirstLen = rapid.SampledFrom([]int{s, s + 1, h - 1}).Draw(rt, "visitor-first")
+	case 4, 5:
+		p.FirstLen = h
+	case 6:
+		p.FirstLen = rapid.SampledFrom([]int{h + 1, 2 * h, 517}).Draw(rt, "visitor-first")
+	default:
+		p.FirstLen = drawSize(rt, "visitor-first", c.bufSize())
+	}
+	// visitors mostly reach a working fallback destination
+	if p.Target != tkOKIP && p.Target != tkOKDomain && rapid.IntRange(0, 3).Draw(rt, "visitor-target-ok") != 0 {
+		p.Target = tkOKIP
+	}
+	if c.AllowSegmented && p.upTotal() < int64(h) {
+		// With allowSegmentedFixedLengthHeader the server keeps reading until it has a whole header
+		// (or EOF): a visitor that sends less than that and then waits for an answer is, as
+		// documented, not connected anywhere. Such a visitor is not generated: it either sends at
+		// least a header's worth in the course of its upload (the header is then assembled from
+		// several segments), or it ends its upload first (EOF ends the collecting).
+		switch {
+		case p.Target != tkOKIP && p.Target != tkOKDomain:
+			p.FirstLen = h // (on the failure paths the harness client only sends its first segment)
+		case p.Mode == cmTargetFirst || p.Mode == cmAbort:
+			p.UpRest = append(p.UpRest, h)
+		}
+	}
+	if p.FirstLen >= 2 && rapid.Bool().Draw(rt, "dribble") {
+		p.Dribble = min(p.FirstLen-1, rapid.SampledFrom([]int{1, s, h - 1, p.FirstLen - 1}).Draw(rt, "dribble-at"))
+		p.DribbleGapMs = rapid.SampledFrom([]int{2, 10, 30}).Draw(rt, "dribble-gap")
+	}
 }
 
 func drawSize(rt *rapid.T, label string, b int) int {
@@ -229,8 +343,15 @@ func drawConn(rt *rapid.T, b int, unreachableOK bool) connPlan {
 func drawCase(rt *rapid.T, unreachableOK bool) casePlan {
 	var c casePlan
 	c.Server = rapid.SampledFrom(serverProtos).Draw(rt, "server")
-	// the direct client is the one through which dial failures keep their errno: 3 of 9
-	c.Client = rapid.SampledFrom([]string{"direct", "direct", "direct", "socks5", "socks5", "http", "none", "ss2022", "ss2022"}).Draw(rt, "client")
+	// the direct client is the one through which dial failures keep their errno: 3 of 10
+	c.Client = rapid.SampledFrom([]string{"direct", "direct", "direct", "socks5", "socks5", "http", "http", "none", "ss2022", "ss2022"}).Draw(rt, "client")
+	// a fifth of the cases concentrate on the configurations with few natural occurrences
+	switch rapid.IntRange(0, 9).Draw(rt, "focus") {
+	case 0:
+		c.Server, c.Fallback = "ss2022", true
+	case 1:
+		c.Server, c.TLS = "http", true
+	}
 	c.TMs = rapid.SampledFrom([]int{40, 60, 100, 150, 250}).Draw(rt, "t-ms")
 	c.BufSize = rapid.SampledFrom([]int{0, 0, 0, 64, 1000, 4096}).Draw(rt, "buf-size")
 	c.DisableWait = rapid.IntRange(0, 4).Draw(rt, "disable-wait") == 0
@@ -241,10 +362,29 @@ func drawCase(rt *rapid.T, unreachableOK bool) casePlan {
 		c.BackTMs = rapid.SampledFrom([]int{40, 100}).Draw(rt, "back-t-ms")
 		c.BackDisableWait = rapid.Bool().Draw(rt, "back-disable-wait")
 		c.ChainAuth = rapid.Bool().Draw(rt, "chain-auth")
+		c.BackDebugLog = rapid.Bool().Draw(rt, "back-debug-log")
+	}
+	c.DebugLog = rapid.Bool().Draw(rt, "debug-log")
+	if c.Server == "http" && !c.TLS {
+		c.TLS = rapid.Bool().Draw(rt, "tls")
+	}
+	if c.Client == "http" {
+		c.ChainTLS = rapid.Bool().Draw(rt, "chain-tls")
+		c.ChainServerName = rapid.Bool().Draw(rt, "chain-server-name")
+	}
+	if c.Server == "ss2022" {
+		if !c.Fallback {
+			c.Fallback = rapid.Bool().Draw(rt, "fallback")
+		}
+		c.AllowSegmented = rapid.IntRange(0, 2).Draw(rt, "allow-segmented") == 0
 	}
 	n := rapid.IntRange(1, 10).Draw(rt, "conns")
 	for i := 0; i < n; i++ {
-		c.Conns = append(c.Conns, drawConn(rt, c.bufSize(), unreachableOK))
+		p := drawConn(rt, c.bufSize(), unreachableOK)
+		if c.Server == "ss2022" && c.Fallback && rapid.Bool().Draw(rt, "visitor") {
+			makeVisitor(rt, &c, &p)
+		}
+		c.Conns = append(c.Conns, p)
 	}
 	return c
 }
@@ -303,7 +443,7 @@ func (c casePlan) backWaitApplies() bool {
 type expectation struct {
 	ok          bool   // the data phase works end to end
 	replyFail   bool   // DialStream must fail with the protocol's failure reply
-	socks5Code  int    // exact SOCKS5 REP expected (0 = any non-zero)
+	socks5Codes []int  // acceptable SOCKS5 REP values (nil = any non-zero)
 	session     bool   // the front relay reaches the copy phase (a stats session is recorded)
 	why         string // for messages
 	rejected    bool
@@ -321,7 +461,7 @@ func (c casePlan) expect(p connPlan, unreachableCode int) expectation {
 	case rejected:
 		// the router decides before anything is dialled or waited for
 		e.replyFail = c.hasReply()
-		e.socks5Code = 2 // connection not allowed by ruleset
+		e.socks5Codes = []int{2} // connection not allowed by ruleset
 		e.why = "router rejects"
 	case !c.failureVisible(p.Target):
 		e.session = true // the relay believes it is connected and starts copying
@@ -334,22 +474,73 @@ func (c casePlan) expect(p connPlan, unreachableCode int) expectation {
 		e.replyFail = c.hasReply()
 		e.why = "onward connection fails before any reply"
 		if p.Target == tkFakeErrno {
-			// conn/dialresult.go: "Based on Linux errno values"; RFC 1928 REP names. Errnos without
-			// a REP of their own (ECONNRESET, ECONNABORTED, ETIMEDOUT, ...) need any failure REP.
-			e.socks5Code = map[string]int{"ECONNREFUSED": 5, "ENETUNREACH": 3, "EHOSTUNREACH": 4, "EACCES": 2}[p.Errno]
+			e.socks5Codes = socks5Accept(p.Errno)
 		}
 		if c.Client == "direct" {
 			switch p.Target {
 			case tkRefused:
-				e.socks5Code = 5 // connection refused
+				e.socks5Codes = []int{5} // connection refused
 			case tkUnreachable:
-				e.socks5Code = unreachableCode // network (3) or host (4) unreachable, by errno
+				e.socks5Codes = []int{unreachableCode} // network (3) or host (4) unreachable, by errno
 			case tkNXDomain:
-				e.socks5Code = 1 // general failure
+				e.socks5Codes = []int{1} // general failure
 			}
 		}
 	}
 	return e
+}
+
+// The failures the harness-owned outbound client can be told to produce.
+const (
+	errDeadline = "context.DeadlineExceeded"
+	errDNS      = "dns-error"
+	errEOF      = "io.EOF"
+)
+
+// conn's result-code table (conn/dialresult.go), plus, as the last entry, "an errno outside it".
+var tableErrnos = []string{"EACCES", "ENETDOWN", "ENETUNREACH", "ENETRESET", "ECONNABORTED", "ECONNRESET", "ETIMEDOUT", "ECONNREFUSED", "EHOSTDOWN", "EHOSTUNREACH", "other-errno"}
+var otherErrnos = []string{"EINVAL", "EPERM", "EADDRNOTAVAIL", "ENOBUFS"}
+
+// the shapes in which an errno reaches the relay from real dialers
+var errWraps = []string{"bare-errno", "os.SyscallError", "net.OpError", "fmt.Errorf-%w"}
+
+// errClass names the row of the result-code table an injected failure belongs to.
+func errClass(errno string) string {
+	for _, o := range otherErrnos {
+		if errno == o {
+			return "other-errno"
+		}
+	}
+	return errno
+}
+
+// socks5Accept: the REP values (RFC 1928 section 6, as named in socks5/stream.go: 1 general SOCKS
+// server failure, 2 connection not allowed by ruleset, 3 Network unreachable, 4 Host unreachable,
+// 5 Connection refused, 6 TTL expired) that report a failure of the given kind truthfully. Written
+// from those names and from the meaning conn/dialresult.go gives each result code, not from the
+// mapping function: one value where a REP exists for exactly that condition, the general failure
+// where none does, and both where the nearest REP is a matter of convention (a timeout has no REP
+// of its own - "TTL expired" is what several other servers answer; a reset network; an unresolvable
+// name, which other servers report as host unreachable). Never success, never 7/8 (command /
+// address type not supported), never the REP of a different condition.
+func socks5Accept(errno string) []int {
+	switch errClass(errno) {
+	case "EACCES": // "permission denied" (denied by policy)
+		return []int{2}
+	case "ENETDOWN", "ENETUNREACH": // "network is down", "network is unreachable"
+		return []int{3}
+	case "ENETRESET": // "network dropped connection on reset"
+		return []int{3, 1}
+	case "EHOSTDOWN", "EHOSTUNREACH": // "host is down", "no route to host"
+		return []int{4}
+	case "ECONNREFUSED":
+		return []int{5}
+	case "ETIMEDOUT", errDeadline: // "connection timed out"
+		return []int{1, 6}
+	case errDNS:
+		return []int{1, 4}
+	}
+	return []int{1} // ECONNABORTED, ECONNRESET, errnos outside the table, io.EOF, anything else
 }
 
 func (c casePlan) classKey(p connPlan) string {
@@ -373,5 +564,42 @@ func (c casePlan) classKey(p connPlan) string {
 	return fmt.Sprintf("%s>%s tfo=%v nowait=%v auth=%v buf=%d | %s at=%s first=%s rest=%d down=%d sf=%v %s extra=%s",
 		c.Server, c.Client, c.DialerTFO, c.DisableWait, c.Auth, c.bufSize(),
 		targetKindNames[p.Target], firstAtNames[p.FirstAt], sz(p.FirstLen), len(p.UpRest), len(p.Down), p.SpeakFirst, closeModeNames[p.Mode], sz(p.Extra)) +
-		fmt.Sprintf(" abort=%d/%v rest-at=%s", p.AbortBy, p.AbortClean, restAtNames[p.RestAt])
+		fmt.Sprintf(" abort=%d/%v rest-at=%s", p.AbortBy, p.AbortClean, restAtNames[p.RestAt]) + c.extraKey(p)
+}
+
+// extraKey: the round-6 dimensions (empty for a plan that uses none of them).
+func (c casePlan) extraKey(p connPlan) string {
+	s := ""
+	if c.Server == "http" && c.TLS {
+		s += " server-tls"
+	}
+	if c.Client == "http" && c.ChainTLS {
+		s += fmt.Sprintf(" client-tls(sni=%v)", c.ChainServerName)
+	}
+	if c.Server == "ss2022" && c.Fallback {
+		s += fmt.Sprintf(" fallback(seg=%v)", c.AllowSegmented)
+		if p.Visitor != viNone {
+			s += fmt.Sprintf(" visitor=%s first=%s dribble=%v", visitorNames[p.Visitor], c.firstSegmentClass(p), p.Dribble > 0)
+		}
+	}
+	if p.Target == tkFakeErrno {
+		s += " " + errClass(p.Errno) + "/" + p.ErrWrap
+	}
+	return s
+}
+
+// firstSegmentClass: a visitor's first segment relative to the salt and the header length.
+func (c casePlan) firstSegmentClass(p connPlan) string {
+	s, h := c.saltLen(), c.fallbackHeaderLen()
+	switch n := p.FirstLen; {
+	case n < s:
+		return "<salt"
+	case n == s:
+		return "=salt"
+	case n < h:
+		return "salt..header"
+	case n == h:
+		return "=header"
+	}
+	return ">header"
 }
